@@ -6,7 +6,8 @@
 (*   Call [p, op = "Create", c, name, raw, tp]   CreateMapping / create command by client c of *)
 (*                        the full domain `raw` (name = its canonical lower-case form); tp is   *)
 (*                        the target port chosen by the driver, unique per create call          *)
-(*   Ret  [p, op = "Create", ok, id]                                                           *)
+(*   Ret  [p, op = "Create", ok, id, faulted]   faulted: the driver made a storage operation   *)
+(*                        of this very call fail                                                *)
 (*   Call [p, op = "Delete", c, id]  /  Ret [p, op = "Delete", ok]                             *)
 (*   Call [p, op = "Update", id, st] /  Ret [p, op = "Update", ok]   st = inactive | expired   *)
 (*   Call [p, op = "Lookup", host, name, sp]     a request with Host header `host`; name = the *)
@@ -75,6 +76,17 @@ CreateViol(t, i) ==
      \cup {V("OneOwner", "cross-source:repo-claims-legacy-name:" \o (IF leg[x].c = me.c THEN "same-client" ELSE "other-client")) : x \in LiveLegacy(me.name)}
      \cup (IF \E u \in DOMAIN cr \ {t} : cr[u].ok /\ cr[u].id = i THEN {V("UniqueId", "dup-id")} ELSE {})
 
+\* ---- clause 1b: a name nobody owns is claimable ------------------------------------------------
+\* the create call t is refused now (line l) although the driver injected no storage fault into it: some other
+\* claim of that name must have been able to hold it at some instant of t's call - one that was not surely
+\* over (rolled back, or deleted by its owner with the delete acknowledged) before t was called
+RefusedViol(t) ==
+  LET rivals == {u \in DOMAIN cr \ {t} : cr[u].name = cr[t].name /\ cr[u].call < l}
+      over(u) == SurelyRolledBackBefore(u, cr[t].call) \/ SurelyDeletedBefore(u, cr[t].call)
+  IN IF \A u \in rivals : over(u)
+     THEN {V("Claimable", IF rivals = {} THEN "refused:never-claimed" ELSE "refused:after-delete-acknowledged")}
+     ELSE {}
+
 \* ---- clause 2: a lookup routes to the owner or rejects ----------------------------------------
 LookupViol(q, e) ==
   LET c0 == q.call IN
@@ -106,7 +118,7 @@ TrRet ==
   /\ Is("Ret")
   /\ CASE Ev.op = "Create" ->
             LET t == CHOOSE x \in DOMAIN cr : cr[x].p = Ev.p /\ cr[x].ret = 0 IN
-            /\ viol' = viol \cup (IF Ev.ok THEN CreateViol(t, Ev.id) ELSE {})
+            /\ viol' = viol \cup (IF Ev.ok THEN CreateViol(t, Ev.id) ELSE IF Ev.faulted THEN {} ELSE RefusedViol(t))
             /\ cr' = [cr EXCEPT ![t].ret = l, ![t].ok = Ev.ok, ![t].id = Ev.id]
             /\ UNCHANGED <<dl, up, lk>>
        [] Ev.op = "Delete" ->
@@ -128,7 +140,7 @@ TrLegCreate ==
   /\ leg' = Put(leg, Ev.lid, [c |-> Ev.c, name |-> Ev.name, tp |-> Ev.tp, call |-> l, del |-> 0])
   /\ viol' = viol \cup {V("OneOwner", "cross-source:legacy-claims-repo-name:" \o (IF cr[t].c = Ev.c THEN "same-client" ELSE "other-client")) :
                            t \in {x \in DOMAIN cr : cr[x].ok /\ cr[x].name = Ev.name /\ OwnerDels(x) = {}}}
-                  \cup (IF LiveLegacy(Ev.name) # {} THEN {V("OneOwner", "legacy:second-claim")} ELSE {})
+                  \cup {V("OneOwner", "legacy:second-claim:" \o (IF leg[x].c = Ev.c THEN "same-client" ELSE "other-client")) : x \in LiveLegacy(Ev.name)}
   /\ l' = l + 1 /\ UNCHANGED <<cr, dl, up, lk>>
 
 TrLegDelete ==
